@@ -181,7 +181,7 @@ class Gauleg(Entry):
                     cs.append({"a": hx(-1.0), "b": hx(1.0), "n": n, "mom": 2 * n if n <= (6 if q else 12) else 0, "family": "unit 1..%d" % nmax})
                 for n in (0, -1, -7):
                     cs.append({"a": hx(-1.0), "b": hx(1.0), "n": n, "mom": 0, "family": "rejected npts<=0"})
-                for n in ([1, 2, 3, 5, 8, 21, 40] if q else [1, 2, 3, 5, 8, 16, 31, 64, 127, 200]):
+                for n in ([1, 2, 3, 5, 8, 21, 40] if q else [1, 2, 5, 16, 31, 127, 200]):
                     for a, b, kind in [(0.0, 1.0, "plain"), (3.5, -2.25, "rev"), (-7.0, -3.0, "neg"), (1e-5, 3e-5, "tiny"),
                                        (2e-250, 7e-250, "tiny"), (-4e200, 9e200, "huge"), (1e12, -1e12, "rev")]:
                         cs.append({"a": hx(a), "b": hx(b), "n": n, "mom": 0, "family": "interval:" + kind})
@@ -207,7 +207,7 @@ class Gauleg(Entry):
                 for af in ("pyint", "np64", "np32", "zerod", "bool"):
                     for n in ((1,) if af == "bool" else (1, 4, 9)):
                         cs.append({"a": hx(-3.0), "b": hx(5.0), "n": n, "mom": 0, "argform": af, "family": "argform:" + af})
-            for a, b, kind in intervals(r, ctx.n(40, 120) if round == 0 else 40):
+            for a, b, kind in intervals(r, ctx.n(40, 80) if round == 0 else 40):
                 n = r.choice([r.randrange(1, 12), r.randrange(1, 61), r.randrange(1, 61 if q else 201)])
                 cs.append({"a": hx(a), "b": hx(b), "n": n, "mom": 0, "family": "interval:" + kind})
         elif self.mode == "moments":
@@ -220,7 +220,7 @@ class Gauleg(Entry):
                     k = (len(ns) + 1) // 2
                     ns = [ns[i + j * k] for i in range(k) for j in range(2) if i + j * k < len(ns)]
                 else:   # thorough: all n <= 32, then samples up to 64 (128 moments)
-                    ns = [n for n in ns if n <= 24 or n in (28, 32, 40, 48)]
+                    ns = [n for n in ns if 21 <= n <= 32 or n in (40, 48)]   # n <= 20: theorem C17_small_rules_exact
                 for n in ns:
                     cs.append({"a": hx(-1.0), "b": hx(1.0), "n": n, "mom": 2 * n, "family": "moments 13..%d" % nmax})
         else:
@@ -339,7 +339,7 @@ class Poly(Entry):
         ns = list(range(1, 31)) if round == 0 else [r.randrange(1, 31) for _ in range(10)]
         if round == 0 and ctx.quick():
             ns = [n for n in ns if n <= 10 or n % 2 == 0 or n == 29]
-        per = ctx.n(2, 3)
+        per = 2
         for n in ns:
             for j in range(per):
                 deg = 2 * n - 1 if j % 2 == 0 else r.randrange(0, 2 * n)
@@ -556,7 +556,7 @@ class Func(Entry):
         cs = []
         names = sorted(_funcs())
         q = ctx.quick()
-        for a, b, kind in mild_intervals(r, ctx.n(50, 150) if round == 0 else 40):
+        for a, b, kind in mild_intervals(r, ctx.n(50, 90) if round == 0 else 40):
             n = r.choice([r.randrange(1, 10), r.randrange(1, 41), r.randrange(1, 61 if q else 201),
                           r.choice([7, 8, 9, 127, 128, 129, 130, 136, 137] if not q else [7, 8, 9, 15, 16, 17, 128, 129])])
             cs.append({"x1": hx(a), "x2": hx(b), "n": n, "fn": r.choice(names),
@@ -574,7 +574,7 @@ class Func(Entry):
         forms = []
         if round == 0:
             forms += [(ff, "list") for ff in sorted(FFORMS)] + [("def", xf) for xf in XFORMS]
-        for _ in range(ctx.n(14, 80) if round == 0 else 10):
+        for _ in range(ctx.n(14, 50) if round == 0 else 10):
             forms.append((r.choice(sorted(FFORMS)), r.choice(XFORMS)))
         for fform, xform in forms:
             if fform == "ufunc":
@@ -695,7 +695,7 @@ class Data(Entry):
     def cases(self, ctx, round=0):
         r = ctx.rng
         cs = []
-        for _ in range(ctx.n(30, 120) if round == 0 else 30):
+        for _ in range(ctx.n(30, 70) if round == 0 else 30):
             npt = r.choice([2, 3, r.randrange(2, 12), r.randrange(2, 60)])
             spacing = r.choice(["even", "uneven", "clustered", "negative"])
             x0 = r.uniform(-10, 10)
@@ -731,7 +731,7 @@ class Data(Entry):
         # tables in other units: very unevenly spaced abscissae scaled by 10^k (spacings far below / above any
         # absolute tolerance a shortcut for "evenly spaced" data might use), and evenly spaced ones with a
         # relative jitter of 1e-7..1e-3 of the spacing
-        for _ in range(ctx.n(10, 50) if round == 0 else 6):
+        for _ in range(ctx.n(10, 30) if round == 0 else 6):
             npt = r.choice([3, 4, 6, 11, 30])
             scale = r.choice([1e-12, 1e-10, 1e-9, 1e-9, 1e-8, 1e-7, 1e-5, 1e5, 1e9, 1e12])
             if r.random() < 0.6:
@@ -769,7 +769,7 @@ class Data(Entry):
         if round == 0:
             combos += [(xd, "f8", "contig") for xd in self.XDT] + [("f8", yd, "contig") for yd in self.YDT]
             combos += [("f8", "f8", lay) for lay in self.LAYOUTS] + [("u1", "u1", "strided"), ("i2", "u2", "negstride"), ("f4", "f4", "readonly")]
-        for _ in range(ctx.n(5, 70) if round == 0 else 8):
+        for _ in range(ctx.n(5, 40) if round == 0 else 8):
             combos.append((r.choice(self.XDT), r.choice(self.YDT), r.choice(self.LAYOUTS)))
         for xd, yd, lay in combos:
             npt = r.choice([2, 3, 5, 9, 17])
@@ -887,13 +887,13 @@ class Func2(Entry):
         r = ctx.rng
         cs = []
         names = sorted(_funcs2())
-        nmax = 12 if ctx.quick() else 16
+        nmax = 12
         shapes = []
         if round == 0:
             shapes += [(1, 1), (1, 3), (4, 1), (3, 4), (4, 3), (2, 2), (5, 5), (7, 2), (2, 9), (8, 16)]
             if not ctx.quick():
                 shapes += [(30, 30), (24, 31), (1, 40)]
-        for _ in range(ctx.n(18, 60) if round == 0 else 30):
+        for _ in range(ctx.n(18, 35) if round == 0 else 30):
             shapes.append((r.randrange(1, nmax + 1), r.randrange(1, nmax + 1)))
         for nx, ny in shapes:
             (a, b, k1), (c_, d, k2) = mild_intervals(r, 2)
@@ -1017,7 +1017,7 @@ class History(Entry):
                                    "styles": [r.choice(["kw", "pos"]) if n is not None else r.choice(["kw", "omit"]) for n in ops],
                                    "sets": [r.choice([0, 1, 2, 3]) for _n in ops],
                                    "family": "history:return %s/%s" % ("".join(x or "-" for x in pat), kp)})
-        for _ in range(ctx.n(45, 200) if round == 0 else 30):
+        for _ in range(ctx.n(45, 120) if round == 0 else 30):
             pool = [r.randrange(1, 41) for _i in range(r.randrange(1, 4))]
             n0 = r.choice([None, r.choice(pool)])
             ops = [r.choice([None, None] + pool + [r.randrange(1, 41)]) for _i in range(r.randrange(1, 9))]
@@ -1157,7 +1157,7 @@ class History2(Entry):
         cs = []
         names = sorted(_funcs2())
         shapes = [(3, 4), (4, 3), (1, 5), (6, 6), (2, 9), (8, 16)] if round == 0 else []
-        for _ in range(ctx.n(10, 60) if round == 0 else 6):
+        for _ in range(ctx.n(10, 40) if round == 0 else 6):
             shapes.append((r.randrange(1, 13), r.randrange(1, 13)))
         for nx, ny in shapes:
             pat = r.choice([(0, 1, 0), (0, 1, 2, 0), (0, 0, 1, 1, 0), (0, 1, 0, 1), (2, 1, 0, 2)])
